@@ -9,7 +9,7 @@ from harness.project import proj_diagram, proj_ty
 
 LEVEL = "model_checking"
 ASSUME = ["configurations: object images from Functor!ObMenu (types of length 0..2, including adjoint atoms), box "
-          "images from three shapes (one box, two-box composite, scalar next to a box), given as dict or callable",
+          "images from three shapes (one box, two-box composite, scalar next to a box), given as dict, as a callable backed by that dict, or as a callable looking images up by box name",
           "'the image is the composite of the images of the layers' is required exactly for diagrams without swaps; "
           "for swaps the statement only asks for a swap diagram of the image types (law 'swap' compares with the "
           "library's own Diagram.swap; the decomposition is C10's subject)",
@@ -45,9 +45,13 @@ def _work(args):
                 else:
                     img = rigid.Box("b300", rigid.Ty(), rigid.Ty()) @ rigid.Id(idm) >> rigid.Box("b%d" % (100 + bid), idm, icd)
                 ar[src] = img
-            if (k + salt) % 2:
+            if (k + salt) % 3 == 1:
                 obd, ard = dict(ob), dict(ar)
                 F = rigid.Functor(ob=lambda t: obd[t], ar=lambda b: ard[b])
+            elif (k + salt) % 3 == 2:
+                # a callable that looks the image up by the name of the box (never raises on daggered boxes)
+                obd, by_name = dict(ob), {b.name: img for b, img in ar.items()}
+                F = rigid.Functor(ob=lambda t: obd[t], ar=lambda b: by_name[b.name])
             else:
                 F = rigid.Functor(ob=ob, ar=ar)
             d = A.build(dabs, k % 2)
